@@ -46,6 +46,10 @@ pub enum Act {
     /// having been reported closed (two dials both succeed, or a replaced socket whose close is
     /// reported late); S sees one more accepted connection
     ConnectAgain,
+    /// S is told that the connection it accepted from C has closed (the io layer keeps forwarding
+    /// what still arrives on that index: only the sending half is dropped); the challenges S issued
+    /// on it are void from then on
+    CloseAtS,
     /// replay observed message #k to a target
     Replay(Target, u8),
     /// send a challenge carrying observed challenge value #j (255 = fresh)
@@ -257,6 +261,7 @@ pub fn enabled(sim: &Sim, thorough: bool) -> Vec<Act> {
     if sim.reconnects == 0 {
         v.push(Act::ReconnectCS);
         v.push(Act::ConnectAgain);
+        v.push(Act::CloseAtS);
     }
     if sim.purges == 0 {
         v.push(Act::Purge);
@@ -364,6 +369,21 @@ pub fn apply(sim: &mut Sim, a: Act, rep: &mut Report, hist: &[Act]) -> bool {
             }
             collect(sim);
             rep.outcome("reconnect:done");
+            return true;
+        }
+        Act::CloseAtS => {
+            use saito_core::core::io::network::PeerDisconnectType;
+            sim.reconnects += 1;
+            let conn = sim.cs;
+            let r = sim.s.net(NetworkEvent::PeerDisconnected { peer_index: conn, disconnect_type: PeerDisconnectType::ExternalDisconnect });
+            if !r.is_done() {
+                rep.violate("handler-abort/disconnect", r.label(), ctx.clone());
+                return true;
+            }
+            sim.issued.remove(&(0, conn));
+            collect(sim);
+            final_invariants(sim, rep, hist, &ctx);
+            rep.outcome("close-at-s:done");
             return true;
         }
         Act::ConnectAgain => {
